@@ -13,6 +13,7 @@ import VaxisModel.Lemmas.Surface
 import VaxisModel.Lemmas.Layout
 import VaxisModel.Lemmas.SurfacePaint
 import VaxisModel.Lemmas.SurfacePaintSpec
+import VaxisModel.Lemmas.SurfaceSized
 
 namespace VaxisModel.Props.C14
 open VaxisModel.Model.Window VaxisModel.Model.Surface VaxisModel.Model.Layout
@@ -441,6 +442,41 @@ theorem render_bare_paints (s : Surface) (scr scr' : Screen) (hwf : scr.WF) (hd 
   cases Spec.Surface.topAt (bodyOf s 0 0 { x0 := 0, y0 := 0, x1 := scr.cols, y1 := scr.rows }) x y with
   | none => rfl
   | some c => simp [hv]
+
+/-! ## Layout and painting compose: a frame of built-in widgets -/
+
+open VaxisModel.Lemmas.SurfaceSized in
+/-- Every surface of the tree a built-in widget's Draw returns holds exactly Width·Height cells
+(all widgets and nestings, every constraint and content). -/
+theorem draw_well_sized (w : Widget) (c : Ctx) (s : Surface) (h : draw w c = .ok s) : WellSized s := by
+  unfold draw at h
+  rw [src_arith_exact] at h
+  exact wellSized_draw textMode richMode w c s h
+
+open VaxisModel.Lemmas.SurfaceSized in
+/-- **A frame of App.Run over any tree of built-in widgets cannot panic in render**: `i / int(Width)`
+only runs for cells of a buffer, and a surface of width 0 built by a widget has no cells. -/
+theorem frame_never_panics (w : Widget) (c : Ctx) (s : Surface) (h : draw w c = .ok s) (scr : Screen) :
+    ∃ scr', runFrame s scr = .ok scr' := by
+  have hd := divZero_of_wellSized s (draw_well_sized w c s h)
+  unfold runFrame
+  rw [renderRoot_clips]
+  exact ⟨_, render_no_panic s _ _ hd⟩
+
+open VaxisModel.Lemmas.SurfaceSized VaxisModel.Lemmas.SurfacePaintSpec in
+/-- … and shows exactly the painter's algorithm of the surface tree Draw returned (layout contract
+and paint contract together, for the model of the current source). -/
+theorem frame_of_widgets_paints (w : Widget) (c : Ctx) (s : Surface) (h : draw w c = .ok s)
+    (scr : Screen) (hwf : scr.WF) :
+    ∃ scr', runFrame s scr = .ok scr' ∧ ∀ x y, inScreen scr x y →
+      scr'.get x y =
+        match Spec.Surface.topAt (Spec.Surface.layers true (toTree 0 0 0 s) 0 0
+            { x0 := 0, y0 := 0, x1 := scr.cols, y1 := scr.rows }) x y with
+        | some c => some c
+        | none => some clearCell := by
+  obtain ⟨scr', hr⟩ := frame_never_panics w c s h scr
+  exact ⟨scr', hr, fun x y hin =>
+    run_frame_paints s scr scr' hwf (divZero_of_wellSized s (draw_well_sized w c s h)) hr x y hin⟩
 
 /-- The model's stable insertion sort by z-index is the spec's "z-order, ties in child order". -/
 theorem zorder_is_spec {α : Type} (l : List (Int × α)) : sortByZ l = Spec.Surface.orderByKey l :=
